@@ -268,6 +268,70 @@ func c38ExtractS3ClientMap(x *ExtractCtx) error {
 	})
 	fmt.Fprintf(w, "/-- The options argument of the `HeadObject` call inside `GetObject`. -/\ndef getObjectHeadOptions : String := %s\n\n", LeanStr(headArgs))
 
+	// request translation of CopyObject / UploadPartCopy: under which condition each input field is set
+	guardsOf := func(method string) []string {
+		fd := FindFunc(f, "s3ClientStorage", method)
+		var rows []string
+		ast.Inspect(fd.Body, func(n ast.Node) bool {
+			as, ok := n.(*ast.AssignStmt)
+			if !ok {
+				return true
+			}
+			for _, l := range as.Lhs {
+				sel, ok := l.(*ast.SelectorExpr)
+				if !ok || x.Src(sel.X) != "input" {
+					continue
+				}
+				cond := "always"
+				ast.Inspect(fd.Body, func(m ast.Node) bool {
+					if is, ok := m.(*ast.IfStmt); ok && is.Body.Pos() <= as.Pos() && as.End() <= is.Body.End() {
+						cond = x.Src(is.Cond) // the innermost enclosing condition wins (visited last)
+					}
+					return true
+				})
+				rows = append(rows, fmt.Sprintf("(%s, %s)", LeanStr(sel.Sel.Name), LeanStr(cond)))
+			}
+			return true
+		})
+		return rows
+	}
+	fmt.Fprintf(w, "/-- `CopyObject`: (field of `s3.CopyObjectInput` assigned after the literal, innermost condition under\nwhich it is assigned). -/\ndef copyObjectGuards : List (String × String) := [%s]\n", strings.Join(guardsOf("CopyObject"), ", "))
+	fmt.Fprintf(w, "def uploadPartCopyGuards : List (String × String) := [%s]\n\n", strings.Join(guardsOf("UploadPartCopy"), ", "))
+	csv := FindFunc(f, "", "copySourceValue")
+	if csv == nil {
+		return fmt.Errorf("copySourceValue not found")
+	}
+	x.Note("copySourceValue", csv)
+	versionGuard := ""
+	ast.Inspect(csv.Body, func(n ast.Node) bool {
+		if is, ok := n.(*ast.IfStmt); ok && strings.Contains(x.Src(is.Body), "?versionId=") {
+			versionGuard = x.Src(is.Cond)
+		}
+		return true
+	})
+	if versionGuard == "" {
+		return fmt.Errorf("copySourceValue no longer appends ?versionId= under a condition")
+	}
+	var csvParams []string
+	for _, fl := range csv.Type.Params.List {
+		for _, n := range fl.Names {
+			csvParams = append(csvParams, n.Name)
+		}
+	}
+	fmt.Fprintf(w, "/-- `copySourceValue(%s)`: the condition under which `?versionId=` is appended to the copy source. -/\ndef copySourceVersionGuard : String := %s\n", strings.Join(csvParams, ", "), LeanStr(versionGuard))
+	// how CopyObject / UploadPartCopy call it
+	var csvCalls []string
+	for _, m := range []string{"CopyObject", "UploadPartCopy", "TransitionObjectStorageClass"} {
+		fd := FindFunc(f, "s3ClientStorage", m)
+		ast.Inspect(fd.Body, func(n ast.Node) bool {
+			if c, ok := n.(*ast.CallExpr); ok && x.Src(c.Fun) == "copySourceValue" && len(c.Args) == 3 {
+				csvCalls = append(csvCalls, fmt.Sprintf("(%s, %s)", LeanStr(m), LeanStr(x.Src(c.Args[2]))))
+			}
+			return true
+		})
+	}
+	fmt.Fprintf(w, "/-- (method, third argument of its `copySourceValue` calls). -/\ndef copySourceVersionArgs : List (String × String) := [%s]\n\n", strings.Join(csvCalls, ", "))
+
 	// server side: handleError
 	pf, err := x.ParseFile("internal/http/server/protocol.go")
 	if err != nil {
